@@ -60,10 +60,11 @@ def strategy(tier):
     maxlen = 25 if tier == "quick" else 50
     op = st.tuples(st.sampled_from(OPS_W), st.integers(0, 11), st.integers(0, 11), st.integers(0, 47))
     return st.builds(
-        lambda nv, flag0, ops: {"nv": nv, "flag0": flag0, "ops": [list(o) for o in ops]},
+        lambda nv, flag0, ops, vcls: {"nv": nv, "flag0": flag0, "vcls": vcls, "ops": [list(o) for o in ops]},
         st.integers(2, 4),
         st.booleans(),
         st.lists(op, max_size=maxlen),
+        st.one_of(st.none(), st.lists(st.integers(0, 3), min_size=1, max_size=4)),
     )
 
 
@@ -73,7 +74,7 @@ def run_history(case, flagged, keep_world=False):
     from edgegraph.structure import Vertex
 
     Vertex.NEIGHBOR_CACHING = bool(case["flag0"]) if flagged else False
-    w = World(case["nv"], 0)
+    w = World(case["nv"], 0, case.get("vcls"))
     outs, flags, between = [], [], []
     cur = []
     try:
